@@ -655,6 +655,61 @@ func ruleR44(c *Ctx) *RuleResult {
 			r.ok("nilroot", "a callee that reads through its node parameter untested on every path is handed X.Root only on paths that know X non-empty", "-", fmt.Sprintf("%d call sites handing a Root to such a callee, each under a non-emptiness test", nsites))
 		}
 	}
+	// (e) a slot index that is, by linear arithmetic over the very same (same version) slice value, its length or more
+	{
+		var linV func(t *Term) lin
+		linV = func(t *Term) lin {
+			if t == nil || t.Op == "_" {
+				return linConst(0)
+			}
+			if k, ok := t.constInt(); ok {
+				return linConst(int(k))
+			}
+			switch {
+			case t.Op == "+" && len(t.Args) == 2:
+				return linV(t.Args[0]).add(linV(t.Args[1]), 1)
+			case t.Op == "-" && len(t.Args) == 2:
+				return linV(t.Args[0]).add(linV(t.Args[1]), -1)
+			}
+			return linAtom(t.String())
+		}
+		var hits []string
+		nidx := 0
+		for _, fn := range p.Funcs {
+			if fn.Parent() != nil || fn.Blocks == nil || fn.Pkg == nil || !p.IsLib(fn) {
+				continue
+			}
+			gc := c.GC(fn)
+			if gc.Undecided != "" {
+				continue
+			}
+			for _, g := range gc.GCs {
+				see := func(t *Term) bool {
+					if t.Op != "ia" || len(t.Args) != 2 || t.Args[0].Op != "load" {
+						return false
+					}
+					nidx++
+					d := linV(t.Args[1]).add(linAtom("(len "+t.Args[0].String()+")"), -1)
+					if len(d.c) == 0 && d.k >= 0 && strings.Contains(t.Args[1].String(), "(len "+t.Args[0].String()+")") {
+						hits = append(hits, fmt.Sprintf("%s: slot %s of a slice of that very length is out of range: %s", p.FuncKey(fn), trunc(noEpoch(t.Args[1]), 80), trunc(noEpoch(t), 140)))
+					}
+					return false
+				}
+				for _, ef := range g.Effects {
+					ef.any(see)
+				}
+				g.Exit.any(see)
+				for _, gd := range g.Guards {
+					gd.any(see)
+				}
+			}
+		}
+		if len(hits) > 0 {
+			r.bad("lenindex", "no slot index equals or exceeds the length of the slice it indexes", "-", strings.Join(dedup(hits), "\n"))
+		} else {
+			r.ok("lenindex", "no slot index is, by linear arithmetic over the same slice value, that slice's length or more", "-", fmt.Sprintf("%d indexed accesses", nidx))
+		}
+	}
 	r.ok("nilconst", "no path of any library function reads or writes a field or slot through the nil constant (a pointer variable that is never assigned on that path)", "-", fmt.Sprintf("%d functions", nfn))
 	var sites []site
 	for s := range seen {
